@@ -351,14 +351,15 @@ pub fn check_case(c: &StreamCase, prop: &str, rep: &mut Report, trace: &mut Opti
         // from a first short write)
         // (the call during which the payload completes may have taken a bounded number of bytes past its end - the
         // unchanged decoder parks up to 19 bytes of a short piece before decoding them; 64 is the look-ahead C15 allows)
-        // The property constrains FURTHER writes, not the one during which the size is reached, and the decoder may
-        // lag behind its input by the look-ahead C15 allows (64 bytes).  So: once the calls so far have taken the
-        // whole payload plus 64 bytes, the size has been reached, and every later write must consume nothing.
+        // The property constrains FURTHER writes, not the one during which the size is reached, and C16 itself does
+        // not say how far a decoder may lag behind its input (C15 does: 64 bytes - but that is C15's text).  So a bound
+        // no reasonable decoder needs: once the calls so far have taken the whole payload plus 64 KiB, the size has
+        // been reached, and every later write must consume nothing.
         if let Some(ec) = e.consumed {
-            if let Some(k) = t.accepted_after.iter().position(|&a| a >= ec + 64) {
+            if let Some(k) = t.accepted_after.iter().position(|&a| a >= ec + 65536) {
                 if let Some(&last) = t.accepted_after.last() {
                     if last > t.accepted_after[k] {
-                        vs.push(format!("after {} input bytes had been taken (payload ends at byte {}, look-ahead 64) later writes still reported {} more bytes consumed", t.accepted_after[k], ec, last - t.accepted_after[k]));
+                        vs.push(format!("after {} input bytes had been taken (payload ends at byte {}, plus 64 KiB) later writes still reported {} more bytes consumed", t.accepted_after[k], ec, last - t.accepted_after[k]));
                     }
                 }
             }
@@ -865,7 +866,7 @@ pub fn mutate(rng: &mut StdRng, g: &GenStream, how: usize) -> (Vec<u8>, String) 
             (d, format!("trailing-zeros+{}", n))
         }
         6 => {
-            let n = rng.gen_range(70..400);
+            let n = rng.gen_range(70_000..100_000);
             for _ in 0..n {
                 d.push(rng.gen());
             }
